@@ -512,6 +512,8 @@ func nontrivial(c *caseJ) bool {
 	return false
 }
 
+var shrunk int
+
 func evaluate(c *caseJ, sum *vh.Summary, cw *vh.CaseWriter, verbose bool) {
 	o := run(c)
 	canon, _ := json.Marshal(c)
@@ -553,7 +555,18 @@ func evaluate(c *caseJ, sum *vh.Summary, cw *vh.CaseWriter, verbose bool) {
 		}
 	}
 	if what != "" {
-		sum.Fail(what, c, detail)
+		if verbose || shrunk >= 8 {
+			sum.Fail(what, c, detail)
+		} else {
+			// report the shrunk case (the first few failures only: shrinking re-runs the implementation)
+			shrunk++
+			d := shrink(c)
+			w2, d2 := oracle(d, run(d))
+			if w2 == "" {
+				d, w2, d2 = c, what, detail
+			}
+			sum.Fail(w2, d, map[string]interface{}{"observed_vs_expected": d2, "input": string(unhx(d.InputHex)), "shrunk_from_input_bytes": len(c.InputHex) / 2})
+		}
 	}
 	if len(o.Problems) == 0 {
 		cw.Add(coqCase(c, o), c)
@@ -649,7 +662,7 @@ func main() {
 	sum := vh.NewSummary("C07", o,
 		"EDI inputs run through edi.NewNonValidatingReader and edi.NewReader; non-trivial = an 'ok' case (logical segments encoded by the generator's inverse, oracle evaluated) in which at least one data value contains a delimiter or the release character, so that escaping decides the result; distinct by (configuration, input bytes, chunking, declarations)")
 	cw := vh.NewCaseWriter(o, "C07", "Base.Utf8 Model.Edi", "ecase", "check_case")
-	cw.PerFile = 150
+	cw.PerFile = 120
 
 	if o.Replay != "" {
 		c, err := loadCase(o.Replay)
@@ -676,7 +689,7 @@ func main() {
 			sum.Hist("corpus")
 		}
 	}
-	total := o.Count(2400, 120000)
+	total := o.Count(1800, 40000)
 	for i := 0; i < total; i++ {
 		var c *caseJ
 		if r.Chance(0.75) {
@@ -686,6 +699,15 @@ func main() {
 		}
 		evaluate(c, sum, cw, false)
 	}
+	// the smallest failing case is the one bin/check turns into the replay
+	sort.SliceStable(sum.Failures, func(i, j int) bool {
+		a, _ := sum.Failures[i].Case.(*caseJ)
+		b, _ := sum.Failures[j].Case.(*caseJ)
+		if a == nil || b == nil {
+			return a != nil
+		}
+		return len(a.InputHex) < len(b.InputHex)
+	})
 	cw.Flush()
 	sum.CaseFiles = cw.Files
 	sum.Write(o)
